@@ -60,6 +60,7 @@ const (
 	kpAckTruncated
 	kpAckBareErrno
 	kpRecvIntr
+	kpStrayError
 	kpTwoClientSet
 	kpCloseErrno
 	kpRecvHard
@@ -84,7 +85,7 @@ var kProbeNames = []string{"unsolicited_record_skipped_inside_call", "eagain_x9_
 	"waitacks_with_nothing_pending", "waitacks_called_again_after_error", "repeated_close_was_noop", "second_close_blocked_in_once",
 	"close_cleared_pid", "getrules_buffer_overwritten_later", "sends_overlapped_in_time", "receive_short_datagram", "receive_foreign_port_id",
 	"receive_non_netlink_address", "short_after_long_datagram", "send_payload_8970", "send_with_caller_pid", "porcupine_histories_checked",
-	"sendto_failed", "kernel_immutable", "receive_foreign_port_id_with_group_mask", "receive_foreign_port_id_2^31_or_more", "getstatus_result_checked_again_at_end", "receive_on_two_independent_clients_in_tasks", "forged_reply_queued_ahead_of_the_kernels", "ack_datagram_truncated", "ack_of_20_to_35_bytes_errno_without_echo", "receive_interrupted_by_a_signal_then_repeated", "setters_on_two_clients_in_two_tasks", "socket_close_reported_an_error", "receive_failed_with_enobufs_inside_call", "sequence_counter_started_next_to_wrap",
+	"sendto_failed", "kernel_immutable", "receive_foreign_port_id_with_group_mask", "receive_foreign_port_id_2^31_or_more", "getstatus_result_checked_again_at_end", "receive_on_two_independent_clients_in_tasks", "forged_reply_queued_ahead_of_the_kernels", "ack_datagram_truncated", "ack_of_20_to_35_bytes_errno_without_echo", "receive_interrupted_by_a_signal_then_repeated", "sequence_0_nlmsg_error_read_inside_call", "setters_on_two_clients_in_two_tasks", "socket_close_reported_an_error", "receive_failed_with_enobufs_inside_call", "sequence_counter_started_next_to_wrap",
 	"verdict_left_unread_by_a_failed_call", "status_reply_ahead_of_its_ack", "send_payload_with_spare_capacity", "send_same_payload_slice_again",
 	"receive_datagram_whose_length_field_differs_from_its_size", "more_than_16_nowait_requests_outstanding", "ack_delayed_past_a_whole_waitforpendingacks_call", "error_ack_echoing_a_request_of_8900_bytes_or_more", "refusal_with_a_netlink_type_other_than_error", "client_preloaded_with_300_to_70000_commands"}
 
@@ -125,6 +126,7 @@ type kctx struct {
 	k           *kern.Kernel
 	port        *kernelPort
 	callHard    bool // a receive failed hard (ENOBUFS) inside the call being judged
+	callStray   bool // a sequence-0 NLMSG_ERROR datagram was read inside the call being judged
 	lastSend    *sendBuf
 	client      *libaudit.AuditClient
 	nl          libaudit.NetlinkSendReceiver
@@ -533,6 +535,7 @@ func (c *kctx) execOp(i int, op KOp) {
 	sf0 := c.port.sendFailed
 	hard0 := c.port.hardFired
 	unsol0 := countConsumed(k, kern.DUnsolicited)
+	strayBefore := strayConsumed(k)
 	leftovers := 0
 	for _, d := range k.Queue {
 		if !d.Consumed && d.Kind != kern.DUnsolicited && !d.Unexcused {
@@ -658,6 +661,13 @@ func (c *kctx) execOp(i int, op KOp) {
 		if c.callHard {
 			c.res.Probes[kpRecvHard]++
 		}
+		c.callStray = strayConsumed(k) > strayBefore
+		if c.callStray {
+			c.res.Probes[kpStrayError]++
+			if tookStrayVerdict(err, 0) && (len(reqs) == 0 || reqs[0].Verdict == 0) {
+				c.viol("stray-verdict-accepted", name, "%s returned %q: the errno of a sequence-0 NLMSG_ERROR datagram, not of the kernel's answer", name, err.Error())
+			}
+		}
 		c.judgeWire(i, op, reqs, st, err)
 		// keep later operations independent: consume whatever is left
 		for _, d := range k.Queue {
@@ -688,6 +698,22 @@ func (c *kctx) execOp(i int, op KOp) {
 
 	// ---- C08 style judgement (also keeps C17 runs honest about their waiting calls) ----
 	relaxed := leftovers > 0
+	if strayConsumed(k) > strayBefore {
+		// a sequence-0 NLMSG_ERROR was read inside this call: it may skip it or give up, it
+		// must not report that datagram's errno as the kernel's verdict
+		relaxed = true
+		c.res.Probes[kpStrayError]++
+		kv := 0
+		for _, r := range reqs {
+			if r.Verdict != 0 {
+				kv = r.Verdict
+				break
+			}
+		}
+		if tookStrayVerdict(err, kv) {
+			c.viol("stray-verdict-accepted", name, "%s returned %q: the errno of a sequence-0 NLMSG_ERROR datagram, not of the kernel's answer (errno %d)", name, err.Error(), kv)
+		}
+	}
 	if c.port.hardFired > hard0 {
 		// a receive failed hard inside this call: it may give up, it must not
 		// present partial data or an unread verdict as success
@@ -863,6 +889,24 @@ func faultOf(p *KPlan, idx int) kern.ReqFault {
 	return kern.ReqFault{}
 }
 
+// strayConsumed counts the stray sequence-0 NLMSG_ERROR datagrams read so far.
+func strayConsumed(k *kern.Kernel) int {
+	n := 0
+	for _, d := range k.Queue {
+		if d.Consumed && d.Stray {
+			n++
+		}
+	}
+	return n
+}
+
+// tookStrayVerdict reports whether err carries the errno of a stray datagram
+// although that is not what the kernel answered.
+func tookStrayVerdict(err error, kernelErrno int) bool {
+	var en syscall.Errno
+	return err != nil && kernelErrno != kern.StrayErrno && errors.As(err, &en) && int(en) == kern.StrayErrno
+}
+
 func countConsumed(k *kern.Kernel, kind int) int {
 	n := 0
 	for _, d := range k.Queue {
@@ -999,7 +1043,7 @@ func (c *kctx) judgeWire(i int, op KOp, reqs []*kern.Request, st *libaudit.Audit
 	if forged {
 		c.res.Probes[kpSpoofAhead]++
 	}
-	if (err != nil || st == nil) && (r.DataFirst || c.callHard || forged) {
+	if (err != nil || st == nil) && (r.DataFirst || c.callHard || forged || c.callStray) {
 		return // the reply overtook its ACK, a receive failed hard, or a forged datagram sat in front of the ACK or the reply: the call may give up
 	}
 	if n < 32 {
@@ -1118,6 +1162,7 @@ func (c *kctx) execWaitAcks(i int, auto bool) {
 	recv0 := c.port.recvCalls
 	nat0 := c.port.naturalEagain
 	hard0 := c.port.hardFired
+	stray0 := strayConsumed(k)
 	t0 := time.Since(c.start)
 	// what is consumed during the call
 	consumedBefore := map[*kern.Datagram]bool{}
@@ -1160,6 +1205,7 @@ func (c *kctx) execWaitAcks(i int, auto bool) {
 		return
 	}
 	judge := c.prop == "C17"
+	strayInCall := strayConsumed(k) > stray0
 	// expected: the pending prefix up to and including the first failing ACK
 	var expect []int
 	wantErrno := 0
@@ -1183,6 +1229,15 @@ func (c *kctx) execWaitAcks(i int, auto bool) {
 		if d.Consumed && !consumedBefore[d] && d.Kind == kern.DAck {
 			got = append(got, d.Req)
 		}
+	}
+	if strayInCall {
+		// a sequence-0 NLMSG_ERROR (no reply, no audit event) was read by this call: it may
+		// skip it or give up on it - what it must not do is report that datagram's errno
+		c.res.Probes[kpStrayError]++
+		if judge && tookStrayVerdict(err, wantErrno) {
+			c.viol("stray-verdict-accepted", "WaitForPendingACKs", "WaitForPendingACKs returned %q: the errno of a sequence-0 NLMSG_ERROR datagram, not of any acknowledgement (the kernel's first error was errno %d)", err.Error(), wantErrno)
+		}
+		judge = false
 	}
 	cut := false
 	if (hardInCall || delayed) && len(got) < len(expect) && fmt.Sprint(got) == fmt.Sprint(expect[:len(got)]) {
